@@ -125,6 +125,33 @@ Theorem C09_model_passes_checker : forall p els,
 Proof. exact model_passes_checker. Qed.
 Print Assumptions C09_model_passes_checker.
 
+(** ... and conversely it is SOUND: whatever produced the observed trace (the implementation,
+    not the model), if the checker accepts it then the clauses of the property hold of that
+    trace, stated over its positions: (1) no period receives more than limitForPeriod releases,
+    (2) every arrival is admitted with a wait in [0, timeout] or rejected, (3) an admitted
+    arrival whose own period still has a spare permit waits 0, its release period had a spare
+    permit, and a rejection happens only when every period up to the timeout horizon is fully
+    reserved ([releases] lists the release periods of the admitted prefix) *)
+Theorem C09_trace_checker_sound : forall p ops obs,
+  prop_unit p [] ops obs = true -> 0 <= pL p ->
+  (forall k, count_eq k (releases p ops obs) <= pL p) /\
+  Forall2 (fun (_ : Z * Z) (o : Z * Z) => (fst o = 1 /\ 0 <= snd o <= pT p) \/ fst o = 0) ops obs /\
+  (forall ops1 obs1 el c ops2 code w obs2,
+     ops = ops1 ++ (el, c) :: ops2 -> obs = obs1 ++ (code, w) :: obs2 -> List.length ops1 = List.length obs1 ->
+     let cnt k := count_eq k (releases p ops1 obs1) in
+     (code = 1 -> cnt (el ÷ pP p) < pL p -> w = 0) /\
+     (code = 1 -> cnt ((el + w) ÷ pP p) < pL p) /\
+     (code = 0 -> forall k, el ÷ pP p <= k <= el ÷ pP p + Z.of_nat (Z.to_nat (pT p ÷ pP p)) -> cnt k = pL p)).
+Proof. exact trace_checker_sound. Qed.
+Print Assumptions C09_trace_checker_sound.
+
+Example C09_trace_checker_nonvacuous :
+  let p := {| pT := 25; pP := 10; pL := 2 |} in
+  let ops := [(0, 1); (0, 1); (0, 1); (3, 1); (3, 1); (3, 1); (3, 1)] in
+  let obs := [(1, 0); (1, 0); (1, 10); (1, 7); (1, 17); (1, 17); (0, 0)] in
+  prop_unit p [] ops obs = true /\ releases p ops obs = [0; 0; 1; 1; 2; 2].
+Proof. vm_compute. split; reflexivity. Qed.
+
 (** non-vacuity: the hypotheses are satisfiable by a concrete non-trivial history *)
 Example C09_nonvacuous :
   let p := {| pT := 25; pP := 10; pL := 2 |} in
